@@ -158,15 +158,21 @@ def main(tier, seed, args):
     c = ctx('on')
     nbytes, splits = (7, 2) if tier == 'quick' else (9, 3)
     rep.bounds = {'stream_bytes': nbytes, 'split_points': splits, 'alphabet': 'newline, ASCII, 2-byte UTF-8 lead and continuation, invalid byte 0xff',
-                  'outside': 'clauses (b) one reply per request id and (c) non-interleaved writes: the driver loop (serde_json::Value, FramedRead/FramedWrite, boxed callbacks) is not encoded; longer streams'}
-    rep.assumptions = ['tokio-util FramedRead contract: append what was read, call decode until it returns None', 'bytes BytesMut contract (split_to, deref, put)']
+                  'driver': 'PluginDriver::run + dispatch_one + logging::start_writer from MIR: 2 concurrent requests (3 thorough) with handlers completing in every order with Ok or Err, 1 (2) concurrent log entries, the sink send suspended between feed and flush',
+                  'outside': 'longer streams; more concurrent requests; JSON text serialisation itself (serde_json, FramedWrite/JsonCodec are contracts: one document per feed); notifications / subscriptions / setconfig dispatch arms'}
+    rep.assumptions = ['tokio-util FramedRead contract: append what was read, call decode until it returns None', 'bytes BytesMut contract (split_to, deref, put)',
+                       'FramedWrite sink contract: feed appends one whole document, flush hands the buffer over, send = feed; flush with a possible suspension in between',
+                       'registered callbacks are environment futures that complete in any order with Ok(value) or Err']
     rep.trusted = ['mirsym', 'z3', 'bytes/std contracts']
-    for n in range(2, nbytes + 1):
+    part = getattr(args, 'part', None)
+    for n in range(2, (nbytes + 1) if part != 'driver' else 2):
         st = codec_chunking(rep, c, n, min(splits, n - 1), '')
         rep.parts['codec_chunking[%d bytes]' % n] = st
         if rep.violations or len(rep.inconclusive) > 5:
             break
     codec_encode(rep, c, 3)
+    if not rep.violations:
+        driver_part(rep, c, tier)
     rep.states = len(rep.nontrivial)
     rep.transitions = rep.paths
     finish(rep, [c], './check C17 --tier ' + tier)
@@ -180,3 +186,183 @@ def replay_cex(path):
         print('VIOLATION property=%s replay=%s' % (PID, path))
         return 1
     return 0
+
+# =====================================================================================================
+# clauses (b) one reply per request id and (c) non-interleaved writes: the real driver loop
+# =====================================================================================================
+from ..sched import Explorer, Violation
+from ..machine import Unsupported
+from ..lib_tokio import TMutex, Chan, MpscSender, MpscReceiver
+from ..lib_std import HMap
+from .. import lib_json
+from ..lib_json import InStream, OutSink, Callback, jobject, jnumber, jstring, jnull
+from ..env_node import NodeEnv
+from ..values import Opaque, unit
+from ..intrinsics import ok as _ok, err as _err
+from .c20 import arc, run_explorer
+
+class DriverEnv(NodeEnv):
+    def __init__(self):
+        NodeEnv.__init__(self)
+        self.handlers = []
+        self.handler_args = []
+
+class DriverHarness:
+    """PluginDriver::run with k requests for a registered method arriving in any interleaving with the completion
+    (in any order, Ok or Err) of their handlers, plus log entries written concurrently through logging::start_writer."""
+    max_polls = 200
+    stop_on_first_violation = False
+    max_violations = 8
+    def __init__(self, c, nreq, nlogs, spurious):
+        self.c = c
+        self.nreq = nreq
+        self.nlogs = nlogs
+        self.spurious = spurious
+    def configure(self, m):
+        m.generic_bindings = {}
+    def init(self, m):
+        st = m.st
+        env = DriverEnv()
+        st.env = env
+        st.sched.spurious = self.spurious
+        st.sched.rng_free = True
+        ch = Chan(4, 'replies')
+        st.channels.append(ch)
+        sink = OutSink('output')
+        omx = TMutex(sink, 'output')
+        st.mutexes.append(omx)
+        inp = InStream()
+        cfgn = m.reg.struct_fields('Configuration')
+        configuration = Adt('cln_plugin::messages::Configuration', None,
+                            {i: (Seq([], 'str', tag=n) if n in ('rpc_file', 'lightning_dir', 'network') else (False if n == 'startup' else (HMap() if n == 'feature_set' else lib_json.none())))
+                             for i, n in enumerate(cfgn)}, list(cfgn))
+        plugin = Adt('cln_plugin::Plugin', None, {0: unit(), 1: HMap(), 2: arc(Opaque('option_values')), 3: configuration,
+                                                  4: Opaque('broadcast::Sender'), 5: MpscSender(ch)},
+                     ['state', 'options', 'option_values', 'configuration', 'wait_handle', 'sender'])
+        methods = HMap()
+        from ..machine import make_box
+        methods.entries.append([Seq(list(b'htlc_accepted'), 'str'), Cell(make_box(Callback('htlc_accepted')))])
+        driver = Adt('cln_plugin::PluginDriver', None, {0: plugin, 1: methods, 2: lib_json.none(), 3: HMap(), 4: HMap(), 5: lib_json.none()},
+                     ['plugin', 'rpcmethods', 'setconfig_callback', 'hooks', 'subscriptions', 'wildcard_subscription'])
+        run = self.c.body('PluginDriver::run')
+        fut = m.call_body(run, [driver, MpscReceiver(ch), inp, arc(omx)])
+        st.sched.new_task('driver', fut)
+        st.roots.update({'sink': sink, 'input': inp, 'fed': 0, 'logs': 0, 'omx': omx, 'logtx': None})
+        if self.nlogs:
+            sw = self.c.body('logging::start_writer')
+            tx = m.call_body(sw, [arc(omx)])
+            st.roots['logtx'] = tx
+    def env_transitions(self, m):
+        st = m.st
+        out = []
+        if st.roots['fed'] < self.nreq:
+            def feed(m):
+                st = m.st
+                k = st.roots['fed']
+                st.roots['fed'] = k + 1
+                req = jobject([('jsonrpc', jstring(Seq(list(b'2.0'), 'str'))), ('id', jnumber(sym.var('id%d' % k))),
+                               ('method', jstring(Seq(list(b'htlc_accepted'), 'str'))), ('params', jnumber(sym.var('p%d' % k)))])
+                msg = Adt('cln_plugin::messages::JsonRpc', 'CustomRequest', {0: jnumber(sym.var('id%d' % k)), 1: req})
+                inp = st.roots['input']
+                inp.q.append(msg)
+                m.event('request_fed', k)
+                st.sched.wake(inp.waiters)
+            out.append(('feed request', feed))
+        for h in st.env.handlers:
+            if h.result is None:
+                for oc in ('ok', 'err'):
+                    def done(m, hid=h.hid, oc=oc):
+                        hh = m.st.env.handlers[hid]
+                        hh.result = _ok(jnumber(sym.var('r%d' % hid))) if oc == 'ok' else _err(Opaque('anyhow', 'handler error'))
+                        m.event('handler_done', hid, oc)
+                        m.st.sched.wake(hh.waiters)
+                    out.append(('handler%d completes %s' % (h.hid, oc), done))
+        if self.nlogs and st.roots['logs'] < self.nlogs:
+            def log(m):
+                st = m.st
+                st.roots['logs'] += 1
+                tx = st.roots['logtx']
+                tx.ch.q.append(Adt('cln_plugin::logging::LogEntry', None, {0: Opaque('level'), 1: Seq([], 'str', tag='logmsg')}, ['level', 'message']))
+                m.event('log_entry')
+                st.sched.wake(tx.ch.rx_waiters)
+            out.append(('log entry', log))
+        return out
+    def after_step(self, m, label):
+        st = m.st
+        for ev in st.events[st.roots.get('ev_seen', 0):]:
+            if ev[0] == 'sink_interleaved':
+                raise Violation('interleaved-output', {'writer': ev[1], 'in_progress': ev[2], 'op': ev[3]}, 'output', 'interleave')
+            if ev[0] == 'sink_without_lock':
+                raise Violation('write-without-output-lock', {'writer': ev[1], 'op': ev[2]}, 'output', 'unlocked-send')
+            if ev[0] == 'task_panic':
+                raise Violation('driver-panicked', {'task': ev[2], 'panic': ev[3]}, 'driver', 'panic')
+        st.roots['ev_seen'] = len(st.events)
+        t = st.sched.tasks[0]
+        if t.status == 'done':
+            raise Violation('driver-returned', {'result': repr(t.result)[:80]}, 'driver', 'exit')
+    def on_quiescent(self, m):
+        st = m.st
+        sink = st.roots['sink']
+        pending = [h.hid for h in st.env.handlers if h.result is None]
+        if pending or st.roots['fed'] < self.nreq:
+            return
+        # every request fed has exactly one flushed reply carrying its id, with result xor error
+        for k in range(st.roots['fed']):
+            idt = sym.var('id%d' % k)
+            hits = []
+            for v, by, flushed in sink.docs:
+                if isinstance(v, Adt) and v.variant == 'Object':
+                    j = v.fields[0]
+                    idv = j.get(m, list(b'id'))
+                    if idv is not None and isinstance(idv, Adt) and idv.variant == 'Number' and (idv.fields[0] is idt or idv.fields[0] == idt):
+                        hits.append((v, flushed))
+            flushed = [h for h in hits if h[1]]
+            if len(flushed) != 1:
+                raise Violation('reply-count', {'request': k, 'replies_written': len(hits), 'replies_flushed': len(flushed),
+                                                'documents': len(sink.docs)}, 'driver.reply', 'missing' if len(flushed) < 1 else 'duplicate')
+            j = flushed[0][0].fields[0]
+            has_r = j.get(m, list(b'result')) is not None
+            has_e = j.get(m, list(b'error')) is not None
+            if has_r == has_e:
+                raise Violation('reply-shape', {'request': k, 'result': has_r, 'error': has_e}, 'driver.reply', 'shape')
+        unflushed = [1 for d in sink.docs if not d[2]]
+        if unflushed:
+            raise Violation('unflushed-output', {'documents': len(unflushed)}, 'output', 'unflushed')
+
+def driver_part(rep, c, tier):
+    cfgs = [(2, 0, False), (1, 1, True)] if tier == 'quick' else [(3, 0, False), (2, 1, True), (1, 2, True)]
+    for nreq, nlogs, sp in cfgs:
+        h = DriverHarness(c, nreq, nlogs, sp)
+        name = 'driver[%d requests,%d log entries%s]' % (nreq, nlogs, ',yield' if sp else '')
+        ex = run_explorer(rep, c, h, name, max_states=200000, max_depth=400, time_budget=300 if tier == 'quick' else 1800)
+        for v, trail, m in ex.violations[:1]:
+            cex = {'property': PID, 'harness': name, 'kind': v.kind, 'detail': v.detail, 'trail': trail.to_list(), 'replay_kind': 'driver',
+                   'events': [list(map(str, e)) for e in m.events[-60:]]}
+            nat = native_driver(cex, nreq)
+            cex['native'] = nat
+            path = save_cex(PID, cex)
+            if nat.get('reproduced'):
+                rep.violations.append({'replay': path, 'role': v.role, 'summary': '%s: %s %s | native: %s' % (name, v.kind, json.dumps(v.detail)[:200], nat.get('why'))})
+            else:
+                rep.inconclusive.append('%s: counterexample %s did not reproduce natively (%s): %s' % (name, v.kind, nat.get('why'), path))
+        if rep.violations:
+            break
+
+def native_driver(cex, nreq):
+    """Run the real plugin binary: send `nreq` hook requests at once and complete... the handlers are the real
+    htlc_accepted handlers: non-trampoline HTLCs, which answer `continue` at once.  Every id must get exactly one reply."""
+    from .. import native_plugin
+    output_kind = cex.get('kind') in ('interleaved-output', 'write-without-output-lock', 'unflushed-output')
+    try:
+        o = native_plugin.burst(400 if output_kind else max(nreq, 4))
+    except Exception as e:
+        return {'reproduced': False, 'why': 'native driver run failed: %r' % (e,)}
+    ids = o.get('reply_ids', [])
+    want = o.get('request_ids', [])
+    missing = [i for i in want if ids.count(i) != 1]
+    garbled = o.get('garbled', [])
+    o['reply_ids'] = ids[:8]
+    o['request_ids'] = want[:8]
+    if garbled:
+        return {'reproduced': True, 'native': o, 'why': '%d written documents were not complete JSON documents (interleaved output)' % len(garbled)}
+    return {'reproduced': bool(missing), 'native': o, 'why': ('ids %s did not get exactly one reply' % missing[:6]) if missing else 'every id got exactly one well-formed reply natively'}
